@@ -191,7 +191,7 @@ def hnsw_phase(ctx, part):
         # ---- 1. the design: exhaustive TLC run of the exact model with all invariants
         if first:
             ov = {"Vals": "{}"} if quick else {"Vals": "{1}"}
-            r = ctx.tlc("HnswMC", ctx.cfg("Hnsw_mc.cfg", ov), timeout=2400, heap="12g")
+            r = ctx.tlc("HnswMC", ctx.cfg("Hnsw_mc.cfg", ov), timeout=2400 if quick else 7200, heap="12g" if quick else "24g", workers=None if quick else 16)
             if r.violated or r.deadlock:
                 raise vlib.NoVerdict("Hnsw model violates %s in the repaired switch position: specification bug" % r.violated)
             ctx.cov["exhaustive"] = True
